@@ -50,6 +50,15 @@ func p(id string, rules []string, decided []string, notDecided, technique string
 	All[id] = &Prop{ID: id, Rules: rules, Decided: strings.Join(decided, " "), NotDecided: notDecided, Assume: a, Technique: technique}
 }
 
+// InheritedNote is the sentence that evidence and manifest add after the decided clauses.
+func (p *Prop) InheritedNote() string {
+	inh := p.AllRules()[len(p.Rules):]
+	if len(inh) == 0 {
+		return ""
+	}
+	return " Inherited (clauses of the layers this property's operations are built on — the rounding core, the unsigned operations, the dec layer, plain arithmetic — which are necessary conditions of this property as well; decided by the rules named, described under the properties that own them): " + strings.Join(inh, ", ") + "."
+}
+
 // AllRules: the property's own selectors followed by the inherited ones it does not already list.
 func (p *Prop) AllRules() []string {
 	out := append([]string{}, p.Rules...)
@@ -81,7 +90,7 @@ func (p *Prop) AllRules() []string {
 var (
 	layerRound = []string{"T-ROUND", "T-SETEXP", "ROUNDSHAPE", "STICKY", "ENUM"}
 	layerUops  = []string{"NORM@uadd|usub|umul|uquo|round|setExpAndRound", "MUSTUSE", "SHIFTDIR", "QUOLEN", "LOWCUT", "ROUNDONCE@umul|uquo|uadd|usub", "FX-OWN@uadd|usub|umul|uquo", "CMPSYM@ucmp", "EXP@uadd|usub|umul|uquo|setExpAndRound|round|limitExp", "MUSTFLOW", "SIGN@uadd|usub|umul|uquo"}
-	layerDec   = []string{"WORD", "CARRY", "ALIASGUARD", "OVERLAP", "POOL", "INIT", "NORMARG", "DECNORM", "FILL"}
+	layerDec   = []string{"CONST", "WORD", "WORDSUM", "DIVCORE", "SIBLING", "CARRY", "ALIASGUARD", "OVERLAP", "POOL", "INIT", "NORMARG", "DECNORM", "FILL"}
 	layerArith = []string{"T-ARITH@Add(|Sub(|Mul(|Quo(", "PREC0@Add|Sub|Mul|Quo|Set", "ROUNDONCE@Add|Sub|Mul|Quo|Set", "T-UNARY@Set(|SetPrec("}
 )
 
@@ -94,20 +103,23 @@ func uses(id string, layers ...[]string) {
 
 func init() {
 	initProps()
-	uses("C01", layerDec, []string{"FX-OWN@uadd|usub|umul|uquo"})
-	uses("C02", layerRound, layerUops, layerDec)
-	uses("C03", layerRound, layerUops, layerDec)
+	uses("C01", layerDec, []string{"FX-OWN@uadd|usub|umul|uquo", "T-ARITH-ALIAS@Add(|Sub(|Mul(|Quo(", "FX-RAW@(*Decimal).Add|(*Decimal).Sub|(*Decimal).Mul|(*Decimal).Quo", "GUARD"})
+	uses("C04", []string{"T-ARITH-ALIAS", "FX-RAW"})
+	uses("C06", []string{"LOWCUT", "MUSTFLOW@remainder", "QUOLEN"})
+	uses("C17", layerRound, layerDec, []string{"T-UNARY@SetPrec(", "NORM"})
+	uses("C02", layerRound, layerUops, layerDec, []string{"PRECWRAP@SetInt"})
+	uses("C03", layerRound, layerUops, layerDec, []string{"CTX@.FMA"})
 	uses("C05", layerRound, layerUops, layerDec, layerArith)
 	uses("C08", layerRound, []string{"T-ARITH", "T-UNARY", "T-CONV", "FX-DEF"})
 	uses("C10", []string{"FX-ACC", "FX-DEF", "NORM"})
-	uses("C11", layerRound, []string{"SCANSHAPE", "DECNORM@dec.scan|mulAddWW|setWord", "NORM@scan", "T-UNARY@Set(|SetPrec(", "LOWCUT"})
-	uses("C12", layerRound, layerUops, layerDec, []string{"NORM@scan"})
-	uses("C13", layerRound, []string{"T-UNARY@Set(|SetPrec(", "NORM@Set", "ROUNDONCE@Set"})
+	uses("C11", layerRound, layerDec, layerUops, []string{"SHIFTW", "CONST", "SCANSHAPE", "DECNORM@dec.scan|mulAddWW|setWord", "NORM@scan", "T-UNARY@Set(|SetPrec(", "LOWCUT"})
+	uses("C12", layerRound, layerUops, layerDec, []string{"NORM@scan", "FMTSHAPE@infinity"})
+	uses("C13", layerRound, layerDec, []string{"T-UNARY@Set(|SetPrec(", "NORM@Set", "ROUNDONCE@Set"})
 	uses("C14", layerRound, layerUops, layerDec)
 	uses("C15", layerRound, layerUops, layerDec, layerArith)
-	uses("C16", []string{"NORM", "DECNORM", "ROUNDSHAPE", "FX-IMMUT"})
+	uses("C16", []string{"NORM", "DECNORM", "ROUNDSHAPE", "FX-IMMUT", "EXP", "GOB@G2"})
 	uses("C19", layerRound, layerUops, layerDec, layerArith, []string{"T-ARITH", "T-UNARY@Sqrt(", "FX-STICKY@(*Decimal).Sqrt|sqrtInverse", "MODE@Sqrt", "SQRTSHAPE"})
-	uses("C20", layerRound, []string{"NORM@round|setExpAndRound"})
+	uses("C20", layerRound, layerDec, []string{"NORM@round|setExpAndRound"})
 }
 
 func initProps() {
@@ -172,13 +184,14 @@ func initProps() {
 		"that prec+2 working digits and the final multiplication give the correctly rounded root (numeric, not applicable)",
 		techCDAI, cdaiAssume, fxAssume)
 	p("C06",
-		[]string{"WORD", "CARRY", "ALIASGUARD", "OVERLAP", "POOL", "INIT", "NORMARG", "FX-GLOBAL@Threshold|decLeafSize|decPool", "CONST@threshold", "FX-IMMUT@dec.|decBasic|decKaratsuba|decAddAt", "DECNORM", "FILL"},
+		[]string{"WORD", "CARRY", "ALIASGUARD", "OVERLAP", "POOL", "INIT", "NORMARG", "FX-GLOBAL@Threshold|decLeafSize|decPool", "CONST@threshold", "FX-IMMUT@dec.|decBasic|decKaratsuba|decAddAt", "DECNORM", "FILL", "SIBLING"},
 		[]string{
 			"WORD: every value stored into a mantissa word and every scalar word handed to a decimal kernel in mul/sqr/div and their helpers is a kernel result, a reduced value, a loaded word or a constant below the base (exceptions tabled with a count); CARRY: every carry/borrow/remainder is consumed except at tabled sites (one more discard fails).",
 			"ALIASGUARD/OVERLAP: result buffers are not reused while they overlap an operand; in-place kernel uses have matching offsets; POOL: scratch buffers are owned exclusively between getDec and putDec; INIT: accumulating routines start from cleared or fully produced buffers (any-range); NORMARG: dec.cmp only sees normalised operands.",
 			"FX-GLOBAL/CONST: the tuning thresholds are written by nobody outside test code and are initialised to constants >= 2; FX-IMMUT: the dec-layer routines never write a source slice.",
 			"DECNORM: every dec-layer function returns a normalised value (norm(), another such function's result, v[:0] or its own parameter) — callers compare lengths and index the top word.",
 			"FILL: element-by-element definitions of a destination cover every index (no data-dependent early exit that leaves old words in place).",
+			"SIBLING: twin helpers that differ only in add vs sub kernels (decKaratsubaAdd/decKaratsubaSub) pass slices with the same bounds to corresponding kernel calls; CARRY window: a carry is not propagated into a one-word window with its carry-out discarded (one tabled site: the add-back of divBasic).",
 		},
 		"that Karatsuba, schoolbook and recursive code compute the same product/quotient (arithmetic), buffer-length contracts (len(z) >= 6n), the partial clear in mul, the numeric `impossible` guards: NOT APPLICABLE to static analysis",
 		"provenance dataflow on stored words, use-def of kernel results, dominance of alias guards and initialisers, slice-root analysis", fxAssume)
@@ -191,12 +204,15 @@ func initProps() {
 		"`no non-zero digit beyond the precision` (the arithmetic of round's lsd)",
 		"typestate and provenance dataflow on the SSA form, dominance of range tests", fxAssume)
 	p("C07",
-		[]string{"CONST", "ASM", "ASM-PURE", "BUILDTAGS", "FX-IMMUT@_g/|VV/|VW/|VU/|WW/", "OVERLAP"},
+		[]string{"CONST", "ASM", "ASM-PURE", "BUILDTAGS", "FX-IMMUT@_g/|VV/|VW/|VU/|WW/", "OVERLAP", "WORDSUM", "DIVCORE", "FILL@_g|VWlarge"},
 		[]string{
 			"E6-CONST: word-base constants (_DB=10^_DW, _DW, _DWb, _DMax), pow10tab, pow2digitsTab, decMaxPow32/64, pow5tab, the reciprocal constant mP of div10W_g, every pow10DivTab64/32 entry (exact-division criterion proved for every word-sized dividend), layout of struct magic, enumerator equality with math/big.",
 			"E7-ASM: the TEXT symbols of dec_arith_amd64.s are exactly the body-less declarations; every name+off(FP) reference matches the Go signature's frame layout and every result slot is written; #define _DB/_DMax/_DW and the reciprocal immediate equal the Go constants; every memory store goes through R10, loaded exactly once from z+0(FP), or into a result slot (kernels write only their destination); the 4x unrolled bodies of add10VV, sub10VV, add10VW, sub10VW and decCpy equal their tail loop instantiated four times; the three inlined copies of div10W equal div10W.",
 			"ASM-PURE (pure-Go configurations): every kernel wrapper forwards its own parameters in order to the _g twin of the same name and signature; BUILDTAGS: assembly declarations and wrappers are exact complements over all occurring tags, the .s file follows the declarations, nothing else is build-conditional and no code dispatches on the architecture at run time; FX-IMMUT: the portable twins write only their destination slice.",
 			"OVERLAP: census of every in-place kernel call site into the overlap patterns the kernels are written for (same offset for elementwise kernels, safe direction for the shifts).",
+			"WORDSUM: in the portable kernels a word loaded from a vector is added with plain + only to a constant or a 0/1 carry (second result of add10WWW/sub10WWW/bits.Add/bits.Sub); ASM carry/: in the assembly a consumed carry never comes from another carry materialisation (SBBQ R, R), and the hardware carry of `vector word + word parameter` (which can pass 2^64) is read before the flags are overwritten.",
+			"DIVCORE / ASM divcore/: the scalar primitives that reduce a binary double word by the word base do so on every path to a result, in the portable version (every return behind div10W) and in the assembly (no result slot written on a path that avoids the multiplication by the reciprocal); FILL copy-rest: a carry kernel that stops early and copies the rest returns a carry of 0 there; OVERLAP direction/: a shift kernel called with a destination above (below) a possibly aliasing source walks descending (ascending), in both versions.",
+			"FILL: the portable kernels define every destination word (no data-dependent early exit without copying the rest).",
 		},
 		"instruction-level equivalence of an assembly body and its portable twin (needs symbolic execution of x86 code, a different technique family); that either equals the mathematical definition",
 		"lints over the assembly text and build constraints, sibling-congruence of unrolled/inlined code sequences, constant/table evaluation (go/types constants + math/big on source constants)", fxAssume)
@@ -222,7 +238,7 @@ func initProps() {
 		"stale words in a reused mantissa buffer (dec.make does not clear) beyond the INIT rule",
 		techFX+"; plus E4 tables under aliasing", cdaiAssume, fxAssume)
 	p("C11",
-		[]string{"FMTSHAPE@MarshalText|shortest|infinity|exponent-marker", "FX-IMMUT@(*Decimal).Append|(*Decimal).Text|(*Decimal).String|(*Decimal).Format|(*Decimal).fmt|(*Decimal).toa|(*Decimal).MarshalText|(*Decimal).bufSizeForFmt", "CONST@pow10tab|decMaxPow", "EXP", "SCANSHAPE@exp-bits|exponent-consumed", "STALE@toa|exp10|Append|Text|bufSizeForFmt|fmt"},
+		[]string{"FMTSHAPE@MarshalText|shortest|infinity|exponent-marker|fmtB", "FX-IMMUT@(*Decimal).Append|(*Decimal).Text|(*Decimal).String|(*Decimal).Format|(*Decimal).fmt|(*Decimal).toa|(*Decimal).MarshalText|(*Decimal).bufSizeForFmt", "CONST@pow10tab|decMaxPow", "EXP", "SCANSHAPE@exp-bits|exponent-consumed", "STALE@toa|exp10|Append|Text|bufSizeForFmt|fmt"},
 		[]string{
 			"FMTSHAPE: MarshalText (hence JSON) calls Append with a constant negative precision in a format Parse reads; on the negative-precision path Append makes no rounding copy; the infinity spelling Append writes is one Parse compares against and the exponent markers of the b and p formats are among those scanExponent accepts.",
 			"EXP(ii)/(iv): no int32 arithmetic on the exponent in the writers; SCANSHAPE/exp-bits: the reader parses the exponent field as a signed 64-bit integer — fmtE writes x.exp-1 and fmtB x.exp-prec, which fall below MinInt32 for values near MinExp, so a narrower parse cannot read back what the writer produced.",
@@ -232,18 +248,19 @@ func initProps() {
 		"round-trip equality of digits and exponent: NOT APPLICABLE to static analysis (digit placement in fmtE/fmtF/itoa and digit accumulation in scan are loop arithmetic over run-time values); this check is a thin necessary-condition claim only",
 		"shape rules over the SSA form of the writers and the reader (constants written vs constants compared), write-set analysis, table evaluation", fxAssume)
 	p("C12",
-		[]string{"ERRNIL", "ERRDROP", "SCANSHAPE", "CONST@decMaxPow", "FX-RBW@(*Decimal).scan|(*Decimal).Parse|SetString|UnmarshalText|(*Decimal).Scan", "PREC0@scan|Parse|SetString|UnmarshalText|(*Decimal).Scan", "FX-STICKY@(*Decimal).scan|(*Decimal).Parse", "FX-ACC@scan", "DECNORM@dec.scan|mulAddWW|setWord"},
+		[]string{"ERRNIL", "ERRDROP", "SCANSHAPE", "CONST@decMaxPow", "FX-RBW@(*Decimal).scan|(*Decimal).Parse|SetString|UnmarshalText|(*Decimal).Scan", "PREC0@scan|Parse|SetString|UnmarshalText|(*Decimal).Scan", "FX-STICKY@(*Decimal).scan|(*Decimal).Parse", "FX-ACC@scan", "DECNORM@dec.scan|mulAddWW|setWord", "SHIFTW"},
 		[]string{
 			"ERRNIL: on every return (per φ edge) of scan, Parse, SetString, ParseDecimal and the context wrappers a possibly non-nil error comes with the nil *Decimal and a nil error with a non-nil one (SetString: flag true exactly with a non-nil result); Parse reports success only on paths where the reader returned io.EOF after the number (no trailing characters).",
 			"ERRDROP: every error returned by a callee inside the scanners is consumed (the three explicit `_ = r.UnreadByte()` excepted).",
 			"SCANSHAPE: the '_' gate handed to scanExponent is the one dec.scan applies (base == 0); fraction digits of base 2/8/16 mantissas contribute 1/3/4 binary exponent units, base-10 digits one decimal unit.",
 			"CONST: decMaxPow tables; FX-RBW/PREC0/FX-STICKY/FX-ACC: scan reads nothing of the old receiver, rounds only with an examined precision (34 for 0), keeps the mode, and defines the accuracy.",
 			"DECNORM: dec.scan returns a normalised mantissa on every path (also when whole words of leading zeros were shifted in).",
+			"SHIFTW: pow2 (the scale factor of a literal with a binary exponent) shifts 1 << n only behind n < width.",
 		},
 		"rounding of long literals, accuracy of the binary-exponent path (pow2), and agreement of the accepted language with math/big (would need the upstream source as a frozen reference); the separator automata of dec.scan/scanExponent",
 		"nil-ness facts from dominating branch edges on the SSA form, per return and φ edge; use-def checks on error results; shape rules on the radix switch", fxAssume)
 	p("C13",
-		[]string{"FMTSHAPE@Append|Format", "FX-IMMUT@(*Decimal).Append|(*Decimal).Text|(*Decimal).String|(*Decimal).Format|(*Decimal).fmt|(*Decimal).toa", "LOWCUT", "STALE@toa|exp10|Append|Text|bufSizeForFmt|fmt"},
+		[]string{"FMTSHAPE@Append|Format|fmtB", "FX-IMMUT@(*Decimal).Append|(*Decimal).Text|(*Decimal).String|(*Decimal).Format|(*Decimal).fmt|(*Decimal).toa", "LOWCUT", "STALE@toa|exp10|Append|Text|bufSizeForFmt|fmt"},
 		[]string{
 			"FMTSHAPE: with an explicit precision Append rounds a fresh copy (never x) that was given x's rounding mode; the precision it requests must be provably non-zero (0 means `keep the operand's precision`, i.e. no rounding) — this obligation FAILS on the pinned tree and is the known finding F12; Format has a case for every documented verb (e E f F g G b p v s) and consults the flags + space 0 - and width/precision.",
 			"FX-IMMUT: formatting never writes its operand.",
@@ -252,7 +269,7 @@ func initProps() {
 		"digit counts, %g exponent thresholds, padding and layout: NOT APPLICABLE to static analysis (arithmetic on run-time lengths); thin necessary-condition claim only",
 		"shape rules on the SSA form of Append/Format (receiver chain of the rounding copy, dominance of the precision test, lower-bound reasoning on the requested precision)", fxAssume)
 	p("C14",
-		[]string{"T-CONV@Int64(|Uint64(|Int(|Rat(", "T-UNARY@SetInt|SetUint64(|NewDecimal(|MinPrec(|IsInt(", "FX-STICKY@SetInt|SetUint64|SetRat|setBits64", "PREC0@SetInt|SetUint64|SetRat|setBits64|NewDecimal", "EXP@setBits64|SetInt|limitExp", "NORM@setBits64|SetInt", "MUSTFLOW@setBits64|SetInt", "SIGN@SetInt|setBits64", "OUTPARAM@Int/|Rat/", "NATLEN", "ROUNDONCE@SetRat|SetInt|setBits64", "FX-DEF@SetInt|SetUint64|SetRat|setBits64", "STALE@Int|Uint64|Rat|intMant", "FILL@setNat|setUint64"},
+		[]string{"T-CONV@Int64(|Uint64(|Int(|Rat(", "T-UNARY@SetInt|SetUint64(|NewDecimal(|MinPrec(|IsInt(", "FX-STICKY@SetInt|SetUint64|SetRat|setBits64", "PREC0@SetInt|SetUint64|SetRat|setBits64|NewDecimal", "EXP@setBits64|SetInt|limitExp", "NORM@setBits64|SetInt", "MUSTFLOW@setBits64|SetInt", "SIGN@SetInt|setBits64", "OUTPARAM@Int/|Rat/", "NATLEN", "ROUNDONCE@SetRat|SetInt|setBits64", "FX-DEF@SetInt|SetUint64|SetRat|setBits64", "STALE@Int|Uint64|Rat|intMant", "FILL@setNat|setUint64", "PRECWRAP@SetInt"},
 		[]string{
 			"T-CONV: Int64/Uint64/Int/Rat for ±0, ±Inf and finite values by exponent class give the documented saturation values and accuracies.",
 			"T-UNARY: SetInt/SetInt64/SetUint64/NewDecimal set the sign before rounding, +0 for a zero argument, keep a non-zero precision and choose the documented default otherwise; MinPrec/IsInt special cases.",
@@ -262,17 +279,19 @@ func initProps() {
 			"NATLEN: the number of binary words decToNat allocates, a pure function w(d) of the digit count, satisfies w(d)*_W >= bitlen(10^d-1) — decided by evaluating the formula for d = 1..4000 and three larger values against exact powers of ten (Int and Rat would otherwise drop the top word silently); ROUNDONCE: SetRat converts numerator and denominator exactly (into temporaries) and rounds once in Quo.",
 			"STALE: Int, Int64, Uint64, Rat, IsInt read the exponent and mantissa only for a finite x (a zero's or infinity's leftover fields never reach the result).",
 			"FILL: setNat/setUint64 (SetInt, SetUint64, SetRat) write every word of the reused mantissa buffer.",
+			"PRECWRAP SetInt/count: the digit-count estimate of SetInt is not computed by scaling the 32-bit bit length with a constant in 32-bit arithmetic (the product wraps for integers beyond some ten thousand digits and the mantissa buffer comes out too short).",
 		},
 		"exactness of the radix conversions and of SetInt's precision estimate (numeric)",
 		techCDAI, cdaiAssume, fxAssume)
 	p("C15",
-		[]string{"T-CONV@SetFloat", "FX-RBW@SetFloat", "FX-STICKY@SetFloat", "OUTPARAM@Float/", "PRECWRAP@SetFloat", "NATLEN", "STALE@Float"},
+		[]string{"T-CONV@SetFloat", "FX-RBW@SetFloat", "FX-STICKY@SetFloat", "OUTPARAM@Float/", "PRECWRAP@SetFloat", "NATLEN", "STALE@Float", "SHIFTW"},
 		[]string{
 			"T-CONV: SetFloat64 and SetFloat dispatch on the ARGUMENT's class: NaN -> ErrNaN, ±0 and ±Inf map to themselves with the argument's sign and Exact accuracy, a finite value enters the scaling arithmetic with the argument's sign and is rounded last with the receiver's precision.",
 			"FX-RBW: neither reads the receiver's previous form/sign; FX-STICKY: the temporary precision increment is undone on every exit.",
 			"T-CONV (guard digit): the scaling Mul/Quo by 2**n runs at a precision strictly above the final one (otherwise the value is rounded twice). OUTPARAM: a caller-supplied *big.Float is completely redefined on every exit of Float that returns it. PRECWRAP: the temporary extra digit is taken only on a path where prec < MaxPrec holds (z.prec++ at MaxPrec wraps to 0: F18, fixed).",
 			"NATLEN: Float/Float64/Float32 go through decToNat: its word count formula leaves room for the largest integer of the operand's digit count.",
 			"STALE: Float reads x.exp / x.mant only under `case finite`.",
+			"SHIFTW: the power of two that scales a binary mantissa is built as 1 << n only behind n < width of the shifted type (at n = width the shift yields 0 and SetFloat64 maps a whole binade to 0 or Inf).",
 		},
 		"nearest/faithful rounding of the conversions, double rounding in Float32/Float64 (numeric, not applicable)",
 		techCDAI, cdaiAssume, fxAssume)
